@@ -168,7 +168,7 @@ fn gradient_case(rng: &mut Rng, case: u64, out: &mut CaseOut) {
         out.inconcl("kappa > 1e4: numerical differentiation not meaningful");
         return;
     }
-    let Ok(prob) = build_problem::<f64>(&spec, &SpyCtl::new()) else {
+    let Ok(prob) = build_problem_auto::<f64>(&spec) else {
         violation(out, stream, case, "valid problem rejected", spec.to_json());
         return;
     };
@@ -245,7 +245,7 @@ fn fit_case<T: Sc>(rng: &mut Rng, case: u64, out: &mut CaseOut) {
     let g = gen_problem(rng, &GenOpts { nmax: 40, smax: 4, ..Default::default() });
     let mut spec = g.spec;
     spec.alpha0 = perturb_alpha(rng, &g.alpha_true, 0.3);
-    let Ok(prob) = build_problem::<T>(&spec, &SpyCtl::new()) else {
+    let Ok(prob) = build_problem_auto::<T>(&spec) else {
         violation(out, stream, case, "valid problem rejected", spec.to_json());
         return;
     };
